@@ -371,7 +371,9 @@ func (d *Driver) runWorker(phase int, pl Plan, slice, start, restart int) (*Work
 		}
 	}
 	res := readResult(out)
-	if err == nil && res != nil && res.Done {
+	if res != nil && res.Done && !timedOut && (err == nil || pl.Race) {
+		// a -race binary exits with status 66 when it reported races; the reports are read from
+		// the race logs, the worker itself completed
 		return res, false, -1
 	}
 	// The worker did not finish: crash (panic, fatal error, checkptr, os.Exit) or watchdog.
